@@ -22,7 +22,18 @@ import (
 	"verif/internal/monitor"
 )
 
-const verifDir = "/verif"
+// verifDir holds known_findings.jsonl; outDir receives evidence/ and replays/; repoDir is the rjson source tree
+// (only read for the coverage summary - the binaries are already built against it).
+var verifDir = envStr("VERIF_DIR", "/verif")
+var outDir = envStr("VERIF_OUT", verifDir)
+var repoDir = envStr("VERIF_REPO", "/repo")
+
+func envStr(name, def string) string {
+	if s := os.Getenv(name); s != "" {
+		return s
+	}
+	return def
+}
 
 func main() {
 	if len(os.Args) < 2 {
@@ -215,7 +226,7 @@ func drive(args []string) int {
 	tier := fs.String("tier", "quick", "quick|thorough")
 	seedF := fs.Int64("seed", envInt("VERIF_SEED", 1), "seed")
 	shardsF := fs.Int("shards", 0, "override number of shards")
-	bindir := fs.String("bindir", filepath.Join(verifDir, ".build"), "directory with vcheck binaries")
+	bindir := fs.String("bindir", envStr("VERIF_BUILD", filepath.Join(verifDir, ".build")), "directory with vcheck binaries")
 	fs.Parse(args)
 	spec := monitor.SpecByID(*prop)
 	if spec == nil {
@@ -332,7 +343,7 @@ func drive(args []string) int {
 	for what, n := range knownHit {
 		fmt.Printf("KNOWN-FINDING: property=%s %s (%d witnesses this run)\n", *prop, what, n)
 	}
-	replayDir := filepath.Join(verifDir, "replays")
+	replayDir := filepath.Join(outDir, "replays")
 	os.MkdirAll(replayDir, 0o755)
 	for i, v := range fresh {
 		if i >= 20 {
@@ -541,6 +552,6 @@ func writeEvidence(spec *monitor.Spec, rep *h.Report, tier string, seed int64, w
 		"violations":  nviol,
 	}
 	b, _ := json.MarshalIndent(ev, "", " ")
-	os.MkdirAll(filepath.Join(verifDir, "evidence"), 0o755)
-	os.WriteFile(filepath.Join(verifDir, "evidence", spec.ID+".json"), b, 0o644)
+	os.MkdirAll(filepath.Join(outDir, "evidence"), 0o755)
+	os.WriteFile(filepath.Join(outDir, "evidence", spec.ID+".json"), b, 0o644)
 }
